@@ -41,6 +41,11 @@ class AstToSqlAlchemyCoreVisitor(common._CommonVisitors, visitor.NodeVisitor):
             # 'null eq x' means the same as 'x eq null':
             node = ast.Compare(node.comparator, node.right, node.left)
 
+        if (
+            isinstance(node.left, ast.Null) or isinstance(node.right, ast.Null)
+        ) and not isinstance(node.comparator, (ast.Eq, ast.NotEq, ast.In)):
+            raise ex.TypeException(node.comparator.__class__.__name__, "null")
+
         left = self.visit(node.left)
         right = self.visit(node.right)
         op = self.visit(node.comparator)
